@@ -107,36 +107,20 @@ class ObjRunner:
         return self.run_function(f, obj, args, kw)
 
     def module_env(self, rel):
-        """Constants visible in module rel: its own and those it imports from sibling modules (one object per runner)."""
-        if rel in self.module_state:
-            return self.module_state[rel]
-        import copy
-        env = {}
-        mod = self.prog.modules.get(rel)
-        if mod is not None:
-            base = rel.rsplit("/", 1)[0] + "/" if "/" in rel else ""
-            for st in mod.tree.body:
-                if isinstance(st, ast.ImportFrom) and st.level >= 1:
-                    src_dir = base
-                    for _ in range(st.level - 1):
-                        src_dir = src_dir.rstrip("/").rsplit("/", 1)[0] + "/" if "/" in src_dir.rstrip("/") else ""
-                    cand = f"{src_dir}{(st.module or '').replace('.', '/')}.py"
-                    if cand in self.prog.modules and cand != rel:
-                        consts = self.prog.module_constants(cand)
-                        for a in st.names:
-                            if a.name in consts:
-                                env[a.asname or a.name] = copy.deepcopy(consts[a.name])
-            env.update(copy.deepcopy(self.prog.module_constants(rel)))
-        self.module_state[rel] = env
-        return env
+        """Constants visible in module rel: its own and those it imports from sibling modules (one copy per runner, so that state
+        kept in them is shared between the calls of one evaluation and not between evaluations)."""
+        if rel not in self.module_state:
+            import copy
+            self.module_state[rel] = copy.deepcopy(self.prog.module_env(rel))
+        return self.module_state[rel]
 
     def run_block(self, finfo, stmts, env):
         """Interpret a block of statements of function finfo with the given local environment; returns the final environment."""
         full = dict(env)
         for k, v in self.module_env(finfo.module.rel).items():
             full.setdefault(k, v)
-        it = (ForkInterp(full, self.oracle, call_hook=self.hook, loop_hook=self.loop, strict=True, name_hook=self.names) if self.fork
-              else Interp(full, call_hook=self.hook, loop_hook=self.loop, strict=True, name_hook=self.names))
+        it = (ForkInterp(full, self.oracle, call_hook=self.hook, loop_hook=self.loop, strict=True, name_hook=self.names, attr_hook=self.attrs) if self.fork
+              else Interp(full, call_hook=self.hook, loop_hook=self.loop, strict=True, name_hook=self.names, attr_hook=self.attrs))
         it.run(stmts)
         return it.env
 
@@ -176,8 +160,8 @@ class ObjRunner:
             # module-level constants of the callee's module: one object per runner, so state kept in them is shared between calls
             for k, v in self.module_env(f.module.rel).items():
                 env.setdefault(k, v)
-            it = (ForkInterp(env, self.oracle, call_hook=self.hook, loop_hook=self.loop, strict=True, name_hook=self.names) if self.fork
-                  else Interp(env, call_hook=self.hook, loop_hook=self.loop, strict=True, name_hook=self.names))
+            it = (ForkInterp(env, self.oracle, call_hook=self.hook, loop_hook=self.loop, strict=True, name_hook=self.names, attr_hook=self.attrs) if self.fork
+                  else Interp(env, call_hook=self.hook, loop_hook=self.loop, strict=True, name_hook=self.names, attr_hook=self.attrs))
             try:
                 it.run(node.body)
             except Flow as fl:
@@ -215,6 +199,16 @@ class ObjRunner:
                 if isinstance(st, ast.Assign) and isinstance(st.value, ast.Name) and any(isinstance(t, ast.Name) and t.id == node.attr for t in st.targets):
                     if self.cinfo(st.value.id) is not None:
                         return self.class_ref(st.value.id)  # DA = ADE
+        return NotImplemented
+
+    def attrs(self, interp, base, attr, node):
+        """@property methods of the modelled object's class."""
+        cls = base.get("__class__") if isinstance(base, dict) else None
+        if not isinstance(cls, str) or base.get("__is_class__"):
+            return NotImplemented
+        f = self.find(cls, attr)
+        if f is not None and any(U(d) in ("property", "functools.cached_property", "cached_property") for d in f.node.decorator_list):
+            return self.run_function(f, base, (), {})
         return NotImplemented
 
     def class_ref(self, name, node=None):
@@ -382,10 +376,32 @@ class ObjRunner:
         if isinstance(call.func, ast.Name) and isinstance(interp.env.get(name), dict) and interp.env[name].get("__is_class__"):
             return self.new(interp.env[name]["__class__"], *args, **kw)  # cls(...) inside a classmethod
         if isinstance(call.func, ast.Name):
-            key = f"{self.rel}::{name}"
-            if key in self.prog.funcs:
-                return self.run_function(self.prog.funcs[key], None, args, kw, plain=True)
+            here = getattr(getattr(call, "_module", None), "rel", self.rel)
+            for key in (f"{here}::{name}", f"{self.rel}::{name}"):
+                if key in self.prog.funcs:
+                    return self.run_function(self.prog.funcs[key], None, args, kw, plain=True)
+            imp = self._imported_function(call, name)
+            if imp is not None:
+                return self.run_function(imp, None, args, kw, plain=True)
         raise AnalysisError(f"object model: unsupported call {U(call)[:80]!r}")
+
+    def _imported_function(self, call, name):
+        """Repository function bound by `from .m import name` in the calling module."""
+        mod = getattr(call, "_module", None)
+        if mod is None:
+            return None
+        base = mod.rel.rsplit("/", 1)[0] + "/" if "/" in mod.rel else ""
+        for st in mod.tree.body:
+            if isinstance(st, ast.ImportFrom) and st.level >= 1 and st.module:
+                src_dir = base
+                for _ in range(st.level - 1):
+                    src_dir = src_dir.rstrip("/").rsplit("/", 1)[0] + "/" if "/" in src_dir.rstrip("/") else ""
+                for a in st.names:
+                    if (a.asname or a.name) == name:
+                        key = f"{src_dir}{st.module.replace('.', '/')}.py::{a.name}"
+                        if key in self.prog.funcs:
+                            return self.prog.funcs[key]
+        return None
 
     def _module_alias(self, call, alias):
         """Repository module a name is bound to by `from . import m as alias` / `from .. import m` in the calling module."""
